@@ -1,7 +1,7 @@
 #!/bin/bash
 # confirm_seed.sh <id>: confirms a seeded change held in /tmp/seedout/<id>: applies its patch to a scratch worktree of /repo HEAD,
 # runs the pinned test suite on it, runs its demonstration on the changed and on the clean tree; writes /tmp/seedout/<id>/confirm.json
-id=$1; D=/tmp/seedout/$id; S=/tmp/confirm.$id
+id=$1; ROOT=${SEEDROOT:-/tmp/seedout}; D=$ROOT/$id; S=/tmp/confirm.$id
 P=$D/patch.diff; [ -f $D/patch.rebased.diff ] && P=$D/patch.rebased.diff
 git -C /repo worktree add --detach $S HEAD >/dev/null 2>&1 || exit 2
 cd $S
@@ -12,9 +12,9 @@ git apply $P || { echo "{\"id\":\"$id\",\"applies\":false}" > $D/confirm.json; g
 if [ -f $D/run_demo.sh ]; then (cd $D && timeout 900 bash ./run_demo.sh $S >$D/demo.changed.log 2>&1); changed_rc=$?; fi
 base=$(/verif/tools/run_baseline.sh $S 2>&1 | head -1)
 cd /; git -C /repo worktree remove --force $S
-python3 - "$id" "$clean_rc" "$changed_rc" "$base" <<'P'
+SEEDROOT=$ROOT python3 - "$id" "$clean_rc" "$changed_rc" "$base" <<'P'
 import json,sys
-id,c,ch,b=sys.argv[1:5]
-json.dump({'id':id,'applies':True,'patch_used':'patch.rebased.diff' if __import__('os').path.exists(f'/tmp/seedout/{id}/patch.rebased.diff') else 'patch.diff','demo_exit_on_clean_tree':c,'demo_exit_with_change':ch,'baseline_with_change':b,'repo_head':__import__('subprocess').run(['git','-C','/repo','rev-parse','--short','HEAD'],capture_output=True,text=True).stdout.strip()},open(f'/tmp/seedout/{id}/confirm.json','w'),indent=1)
+id,c,ch,b=sys.argv[1:5]; root=__import__("os").environ.get("SEEDROOT","/tmp/seedout")
+json.dump({'id':id,'applies':True,'patch_used':'patch.rebased.diff' if __import__('os').path.exists(f'{root}/{id}/patch.rebased.diff') else 'patch.diff','demo_exit_on_clean_tree':c,'demo_exit_with_change':ch,'baseline_with_change':b,'repo_head':__import__('subprocess').run(['git','-C','/repo','rev-parse','--short','HEAD'],capture_output=True,text=True).stdout.strip()},open(f'{root}/{id}/confirm.json','w'),indent=1)
 P
 cat $D/confirm.json
